@@ -38,7 +38,8 @@ def gen(rng, broker, tier):
         subs = sorted(rng.sample(later, k)) if later else []
         nodes.append({"subs": subs, "kind": rng.choice(["async", "async", "sync"]), "delay_us": rng.choice([0, 0, 500, 20_000]),
                       "msg": rng.random() < 0.3, "msg_first": rng.random() < 0.5, "default": rng.random() < 0.2,
-                      "exc_value": rng.random() < 0.08})  # a provider whose *value* is an exception object
+                      "exc_value": rng.random() < 0.08,  # a provider whose *value* is an exception object
+                      "lazy_value": rng.random() < 0.08})  # a sync provider whose value is an awaitable handle (nobody awaits it)
     roots = sorted(rng.sample(range(n), rng.randint(1, min(3, n))))
     deliveries = []
     for d in range(rng.randint(1, 4)):
@@ -109,6 +110,8 @@ async def _main(sim, sc, out):
                     raise RuntimeError(f"provider {i} fails")
                 if nodes[i].get("exc_value") and tag == "base":
                     return RuntimeError(f"n{i}-value")
+                if nodes[i].get("lazy_value") and tag == "base":
+                    return _Lazy(f"n{i}-handle")
                 return _value(i, tag, kwargs)
         ns = {"_body": body}
         call = "{" + ", ".join(f"{p!r}: {p}" for p in pnames) + "}"
@@ -126,9 +129,22 @@ async def _main(sim, sc, out):
         fn.__annotations__ = ann
         return fn
 
+    class _Lazy:
+        def __init__(self, name):
+            self.name = name
+
+        def __await__(self):
+            lazily_awaited.append(self.name)
+            return iter(())
+            yield  # pragma: no cover
+
+    lazily_awaited: list = []
+
     def _plain(v):
         if isinstance(v, BaseException):
             return ["EXCVALUE", str(v)]
+        if isinstance(v, _Lazy):
+            return ["LAZY", v.name]
         return v if not hasattr(v, "key") else "MSG:" + v.key.id_
 
     def _value(i, tag, kwargs):
@@ -209,6 +225,8 @@ async def _main(sim, sc, out):
                 kw["opt"] = 7
             if nodes[i].get("exc_value") and tag == "base":
                 return ["EXCVALUE", f"n{i}-value"]
+            if nodes[i].get("lazy_value") and tag == "base" and nodes[i]["kind"] == "sync":
+                return ["LAZY", f"n{i}-handle"]
             return [f"n{i}", tag, sorted(kw.items())]
 
         def reaches(i, target, seen=None):
@@ -253,6 +271,8 @@ async def _main(sim, sc, out):
                 V.append(violation("call-count", f"C18/mem/provider-called-{'more' if c > used_counts.get(i, 0) else 'fewer'}-times-than-used",
                                    node=i, calls=c, uses=used_counts.get(i, 0), delivery=di))
                 break
+    if lazily_awaited:
+        V.append(violation("value-awaited", "C18/mem/provider-value-awaited-by-the-framework", handles=lazily_awaited[:3]))
     out["nontrivial"] = exercised
     out["states"].append(f"n{n}-r{len(roots)}-d{len(sc['deliveries'])}")
 
